@@ -147,7 +147,15 @@ func VH23b_listener() {
 	if !ok {
 		return
 	}
+	// the origin check may be configured on the listener, before or after it starts, to either value
+	co := verif.Choice("check-origin", 4) // 0: untouched, 1: false before Listen, 2: true before Listen, 3: false after Listen
+	if co == 1 || co == 2 {
+		verif.Assert(l.SetOption(ws.OptionWebSocketCheckOrigin, co == 2) == nil, "C19/ws-listener/set-check-origin")
+	}
 	verif.Assert(l.Listen() == nil, lab+"/listen")
+	if co == 3 {
+		verif.Assert(l.SetOption(ws.OptionWebSocketCheckOrigin, false) == nil, "C19/ws-listener/set-check-origin-while-listening")
+	}
 	self := sock.Info().SelfName + ".sp.nanomsg.org"
 	offers := [][]string{{self}, {"other.sp.nanomsg.org"}, {}, {"x", self}, {sock.Info().SelfName + ".sp.nanomsg.orgx"}, {"rep.sp.nanomsg.org"}}
 	oi := verif.Choice("offer", len(offers))
@@ -172,6 +180,14 @@ func VH23b_listener() {
 	}
 	if offered {
 		verif.Assert(vws.Upgrades == 1, lab+"/matching-subprotocol-refused")
+		// the server's answer must name the SP subprotocol: an independent client checks what was negotiated
+		named := false
+		for _, sp := range vws.UpgradeSubprotocols {
+			if sp == self {
+				named = true
+			}
+		}
+		verif.Assert(named, lab+"/handshake-answer-does-not-name-the-sp-subprotocol")
 		verif.Assert(st.LimitSet && st.ReadLimit == int64(maxrx), "C16/ws-listener/read-limit-not-applied")
 		verif.Reach("accepted")
 		// traffic: one binary frame per message
